@@ -51,6 +51,8 @@ TRANSPARENT_METHODS = {"astype", "copy"}
 TRANSPARENT_FUNCS = {"numpy.copy", "copy.deepcopy", "copy.copy", "numpy.asarray", "numpy.ascontiguousarray"}
 
 
+STR_METHODS = {"startswith", "endswith", "split", "rsplit", "lower", "upper", "strip", "lstrip", "rstrip", "replace", "title",
+               "capitalize", "find", "count", "isdigit", "partition"}
 DICT_METHODS = {"keys", "values", "items", "get", "pop", "update", "setdefault", "copy", "clear", "deepcopy"}
 
 
@@ -149,7 +151,7 @@ class Result:
 
 
 class ANF:
-    def __init__(self, index, fi, consts=None, inline=(), param_alias=None, strip=True, options=None):
+    def __init__(self, index, fi, consts=None, inline=(), param_alias=None, strip=True, options=None, method_consts=None):
         """consts: {local or parameter name: python value} propagated as constants (e.g. mode="hydraulics");
         inline: qualified names of repository functions to substitute at their call sites;
         param_alias: {actual parameter name: canonical symbol name}"""
@@ -159,6 +161,7 @@ class ANF:
         self.param_alias = dict(param_alias or {})
         self.strip = strip
         self.options = dict(options or {})      # get_net_option(net, <name>) -> constant
+        self.method_consts = dict(method_consts or {})   # <anything>.<name>() -> constant (e.g. table_name of the loop's class)
         self.adict = {"net"}                    # symbols that are pandapipesNet objects (attribute == item access)
         self.res = Result()
         self._seq = 0
@@ -453,6 +456,15 @@ class ANF:
             if b[0] in ("tuple", "list") and len(idx) == 1 and is_const(idx[0]) and isinstance(idx[0][1], int) \
                     and -len(b[1]) <= idx[0][1] < len(b[1]):
                 return b[1][idx[0][1]]
+            if len(idx) == 1 and idx[0][0] == "slice" and all(is_const(x) for x in idx[0][1:]) and \
+                    ((is_const(b) and isinstance(b[1], str)) or b[0] in ("list", "tuple")):
+                sl = slice(idx[0][1][1], idx[0][2][1], idx[0][3][1])
+                return C(b[1][sl]) if is_const(b) else (b[0], tuple(b[1][sl]))
+            if is_const(b) and isinstance(b[1], str) and len(idx) == 1 and is_const(idx[0]) and isinstance(idx[0][1], int):
+                try:
+                    return C(b[1][idx[0][1]])
+                except IndexError:
+                    pass
             if b[0] == "dict" and len(idx) == 1:
                 for k, v in b[1]:
                     if key(k) == key(idx[0]):
@@ -614,6 +626,19 @@ class ANF:
             if recv[0] != "x":
                 if self.strip and f.attr in TRANSPARENT_METHODS:
                     return recv
+                if f.attr == "get" and recv[0] == "dict" and args and is_const(args[0]) and all(is_const(k_) for k_, _ in recv[1]):
+                    for k_, v_ in recv[1]:
+                        if k_ == args[0]:
+                            return v_
+                    return args[1] if len(args) > 1 else C(None)
+                if f.attr in self.method_consts and not args and not kw:
+                    return C(self.method_consts[f.attr])
+                if is_const(recv) and isinstance(recv[1], str) and f.attr in STR_METHODS and all(is_const(a) for a in args) and not kw:
+                    try:
+                        v = getattr(recv[1], f.attr)(*[a[1] for a in args])
+                        return ("list", tuple(C(i) for i in v)) if isinstance(v, list) else C(v)
+                    except Exception:
+                        pass
                 if f.attr == "format" and is_const(recv) and all(is_const(a) for a in args) and not kw:
                     try:
                         return C(recv[1].format(*[a[1] for a in args]))
@@ -641,7 +666,7 @@ class ANF:
 
     def inline_call(self, qual, e, args, kw, cond, loops):
         g = self.ix.func(qual)
-        sub = ANF(self.ix, g, inline=self.inline, strip=self.strip, options=self.options)
+        sub = ANF(self.ix, g, inline=self.inline, strip=self.strip, options=self.options, method_consts=self.method_consts)
         sub.res = self.res
         sub._seq, sub._bound, sub._loop = self._seq, self._bound, self._loop + 100
         env = {}
@@ -754,6 +779,63 @@ def _renumber(t):
 
 
 # ---------------------------------------------------------------------- queries on terms
+def fold(t):
+    """re-simplify a term after substitution of constants (string formatting, concatenation, constant containers)"""
+    if not isinstance(t, tuple) or not t:
+        return t
+    if not isinstance(t[0], str):
+        return tuple(fold(x) for x in t)
+    t = tuple(fold(x) if isinstance(x, tuple) else x for x in t)
+    h = t[0]
+    if h == "op" and t[1] == "%" and is_const(t[2]) and isinstance(t[2][1], str):
+        b = t[3]
+        if is_const(b) or (b[0] == "tuple" and all(is_const(x) for x in b[1])):
+            try:
+                return C(t[2][1] % (tuple(x[1] for x in b[1]) if b[0] == "tuple" else b[1]))
+            except Exception:
+                return t
+    if h == "cat" and all(is_const(x) for x in t[1]):
+        return C("".join(str(x[1]) for x in t[1]))
+    if h == "opn":
+        return mk_opn(t[1], list(t[2]))
+    if h == "idx" and t[1][0] in ("list", "tuple") and len(t[2]) == 1 and is_const(t[2][0]) and isinstance(t[2][0][1], int) \
+            and -len(t[1][1]) <= t[2][0][1] < len(t[1][1]):
+        return t[1][1][t[2][0][1]]
+    return t
+
+
+def expand_comp(t):
+    """elements of a comprehension whose generators run over constant sequences (None when not expandable)"""
+    if not (isinstance(t, tuple) and t and t[0] == "comp"):
+        return None
+    out = [({}, )]
+    envs = [dict()]
+    for bv, it, ifs in t[3]:
+        new = []
+        for e in envs:
+            it2 = fold(subst(it, {key(k): v for k, v in e.items()}))
+            if it2[0] not in ("list", "tuple", "set"):
+                return None
+            for item in it2[1]:
+                e2 = dict(e)
+                e2[bv] = item
+                # tuple targets: ("b", i, k) components
+                if item[0] in ("tuple", "list"):
+                    for k_, sub in enumerate(item[1]):
+                        e2[bv + (k_,)] = sub
+                keep = True
+                for cnd in ifs:
+                    c2 = fold(subst(cnd, {key(k): v for k, v in e2.items()}))
+                    if truth(c2) is False:
+                        keep = False
+                    elif truth(c2) is None:
+                        return None
+                if keep:
+                    new.append(e2)
+        envs = new
+    return [fold(subst(t[2], {key(k): v for k, v in e.items()})) for e in envs]
+
+
 def norm_cond(c, pol):
     """(condition, polarity) with leading negations folded into the polarity"""
     while isinstance(c, tuple) and c and c[0] == "u" and c[1] == "not":
@@ -838,10 +920,10 @@ def match(pat, t, b=None):
     return b if pat == t else None
 
 
-def expect(index, fi, text, env=None, consts=None):
+def expect(index, fi, text, env=None, consts=None, strip=True):
     """term of an expectation written as Python text, evaluated in the global scope of `fi` (so constants and
     functions resolve exactly like in the analysed function); free names are symbols unless bound in env"""
-    a = ANF(index, fi, consts=consts)
+    a = ANF(index, fi, consts=consts, strip=strip)
     e = ast.parse(text, mode="eval").body
     return a.eval(e, dict(env or {}))
 
